@@ -181,9 +181,14 @@ def run_case(case):
                             try:
                                 type(make_encoder(other))(decoder=shared).encode(
                                     gv.build_module([["a", 1]]))
-                            except (ValueError, TypeError):
-                                pass
-                t = encoder.encode(m)
+                            except Exception:
+                                pass     # (an ODL encoder around a PVL decoder, say)
+                # "the same call with the same arguments": a new encoder around the
+                # same decoder object every other time, the kept one otherwise
+                if call == 2 or case["spec"] and len(case["spec"]) % 2:
+                    t = pvl.dumps(m, encoder=type(encoder)(decoder=shared, **cfg))
+                else:
+                    t = encoder.encode(m)
             elif style == "instance-interleaved":
                 if call:
                     # between the calls the same encoder writes other modules that
